@@ -7,7 +7,15 @@ From Matreex Require Import Gen.Prelude Gen.KernelGen.
 Ltac res_cases :=
   repeat (cbn [bind];
           match goal with
-          | |- context [bind ?x _] => lazymatch x with Val _ => fail | _ => destruct x end
+          | |- context [bind ?x _] =>
+            lazymatch x with
+            | Val _ => fail
+            | bind _ _ => fail
+            | (if _ then _ else _) => fail
+            | (match _ with _ => _ end) => fail
+            | _ => destruct x
+            end
+          | |- context [bind (if ?b then _ else _) _] => destruct b
           end);
   cbn [bind]; try reflexivity.
 
@@ -197,5 +205,89 @@ Lemma gen_AxisIndex_is_out_of_bounds c i m :
 Proof.
   unfold G_AxisIndex_is_out_of_bounds, AxisIndex_is_out_of_bounds. rewrite gen_Matrix_major, gen_Matrix_minor. cbn [bind].
   unfold f_AxisIndex_major, f_AxisIndex_minor. destruct (ai_major i >=? _); reflexivity.
+Qed.
+(* END *)
+
+(* ---------- iter/iter_mut.rs: the two pointer-level state machines ---------- *)
+(* BEGIN IterNthVectorMut_assemble *)
+Lemma gen_IterNthVectorMut_assemble c es al base bytes lower stride length :
+  G_IterNthVectorMut_assemble c es al base bytes lower stride length = Nth_assemble c es base bytes lower stride length.
+Proof.
+  unfold G_IterNthVectorMut_assemble, Nth_assemble, step_fwd, Build_IterNthVectorMut.
+  destruct (es =? 0); res_cases.
+Qed.
+(* END *)
+(* BEGIN IterNthVectorMut_next *)
+(* the model additionally records which position the reference stands for (ghost); the reference itself is the same *)
+Lemma gen_IterNthVectorMut_next c es al base bytes s :
+  G_IterNthVectorMut_next c es al base bytes s =
+    let* r := Nth_next c es al base bytes s in Val (fst r, option_map fst (snd r)).
+Proof.
+  unfold G_IterNthVectorMut_next, Nth_next, step_fwd, GNonNull_eqb, f_IterNthVectorMut_stride, f_IterNthVectorMut_lower,
+    f_IterNthVectorMut_upper, set_IterNthVectorMut_stride, set_IterNthVectorMut_lower.
+  destruct s as [lo up [st|]]; cbn [n_lower n_upper n_stride]; [|reflexivity].
+  destruct (es =? 0); cbn [bind]; destruct (lo =? up); res_cases.
+Qed.
+(* END *)
+(* BEGIN IterNthVectorMut_next_back *)
+Lemma gen_IterNthVectorMut_next_back c es al base bytes s :
+  G_IterNthVectorMut_next_back c es al base bytes s =
+    let* r := Nth_next_back c es al base bytes s in Val (fst r, option_map fst (snd r)).
+Proof.
+  unfold G_IterNthVectorMut_next_back, Nth_next_back, step_back, GNonNull_eqb, f_IterNthVectorMut_stride, f_IterNthVectorMut_lower,
+    f_IterNthVectorMut_upper, set_IterNthVectorMut_stride, set_IterNthVectorMut_upper.
+  destruct s as [lo up [st|]]; cbn [n_lower n_upper n_stride]; [|reflexivity].
+  destruct (es =? 0); cbn [bind]; destruct (lo =? up); res_cases.
+Qed.
+(* END *)
+(* BEGIN IterNthVectorMut_size_hint *)
+Lemma gen_IterNthVectorMut_size_hint c es al base bytes s :
+  G_IterNthVectorMut_size_hint c es al base bytes s = let* n := Nth_len c es s in Val (n, Some n).
+Proof.
+  unfold G_IterNthVectorMut_size_hint, Nth_len, f_IterNthVectorMut_stride, f_IterNthVectorMut_lower, f_IterNthVectorMut_upper.
+  destruct s as [lo up [st|]]; cbn [n_lower n_upper n_stride]; [|reflexivity].
+  destruct (es =? 0); res_cases.
+Qed.
+(* END *)
+(* BEGIN IterVectorsMut_assemble *)
+Lemma gen_IterVectorsMut_assemble c es al base bytes buffer axis_str axis_len vec_str vec_len :
+  G_IterVectorsMut_assemble c es al base bytes buffer axis_str axis_len vec_str vec_len =
+    Vecs_assemble c es base bytes buffer axis_str axis_len vec_str vec_len.
+Proof.
+  unfold G_IterVectorsMut_assemble, Vecs_assemble, step_fwd, Build_IterVectorsMut, Build_Layout.
+  destruct (es =? 0); res_cases.
+Qed.
+(* END *)
+(* BEGIN IterVectorsMut_next *)
+Lemma gen_IterVectorsMut_next c es al base bytes s :
+  G_IterVectorsMut_next c es al base bytes s = Vecs_next c es base bytes s.
+Proof.
+  unfold G_IterVectorsMut_next, Vecs_next, step_fwd, GNonNull_eqb, f_IterVectorsMut_layout, f_IterVectorsMut_lower,
+    f_IterVectorsMut_upper, set_IterVectorsMut_layout, set_IterVectorsMut_lower, f_Layout_vector_stride, f_Layout_vector_length, f_Layout_axis_stride.
+  destruct s as [lo up [l|]]; cbn [v_lower v_upper v_layout]; [|reflexivity].
+  rewrite gen_IterNthVectorMut_assemble.
+  destruct (Nth_assemble c es base bytes lo (vector_stride l) (vector_length l)); cbn [bind]; try reflexivity.
+  destruct (es =? 0); cbn [bind]; destruct (lo =? up); res_cases.
+Qed.
+(* END *)
+(* BEGIN IterVectorsMut_next_back *)
+Lemma gen_IterVectorsMut_next_back c es al base bytes s :
+  G_IterVectorsMut_next_back c es al base bytes s = Vecs_next_back c es base bytes s.
+Proof.
+  unfold G_IterVectorsMut_next_back, Vecs_next_back, step_back, GNonNull_eqb, f_IterVectorsMut_layout, f_IterVectorsMut_lower,
+    f_IterVectorsMut_upper, set_IterVectorsMut_layout, set_IterVectorsMut_upper, f_Layout_vector_stride, f_Layout_vector_length, f_Layout_axis_stride.
+  destruct s as [lo up [l|]]; cbn [v_lower v_upper v_layout]; [|reflexivity].
+  rewrite gen_IterNthVectorMut_assemble.
+  destruct (Nth_assemble c es base bytes up (vector_stride l) (vector_length l)); cbn [bind]; try reflexivity.
+  destruct (es =? 0); cbn [bind]; destruct (lo =? up); res_cases.
+Qed.
+(* END *)
+(* BEGIN IterVectorsMut_size_hint *)
+Lemma gen_IterVectorsMut_size_hint c es al base bytes s :
+  G_IterVectorsMut_size_hint c es al base bytes s = let* n := Vecs_len c es s in Val (n, Some n).
+Proof.
+  unfold G_IterVectorsMut_size_hint, Vecs_len, f_IterVectorsMut_layout, f_IterVectorsMut_lower, f_IterVectorsMut_upper, f_Layout_axis_stride.
+  destruct s as [lo up [l|]]; cbn [v_lower v_upper v_layout]; [|reflexivity].
+  destruct (es =? 0); res_cases.
 Qed.
 (* END *)
